@@ -1,3 +1,4 @@
 //! Reference models (oracles): same interface as the node's sketch, trivial inside, no code
 //! shared with the library.
 pub mod hll;
+pub mod cpc;
